@@ -752,7 +752,7 @@ func verifyEOFHelpers(c *Ctx, m *core.Module) map[string]bool {
 		return res
 	}
 	if nf, fn := f.NF("isCharAt"); fn != nil {
-		ok := nf == "if((p1 >= len(p0)), false, (p0[p1] == p2))"
+		ok := canonShape(nf) == canonShape("if((p1 >= len(p0)), false, (p0[p1] == p2))")
 		c.R.Check(ok, "C16.d", "fc.isCharAt", "eof-false", c.Pos(f.M.Fset, fn.Decl.Pos()), "isCharAt returns false when the index is at or past the end", "isCharAt is not end-of-input-false: "+nf)
 		res["isCharAt"] = ok
 	}
